@@ -176,7 +176,8 @@ class OrderImportsBlocksTransform(CSTTransformer):
 
     def _create_from_import_stmt(self, module_name, name_alias_set, comments):
         sorted_name_alias = list(name_alias_set)
-        sorted_name_alias.sort(key=lambda t: _natural_key(t[0]))
+        # the alias takes part in the key: ties would otherwise keep the set's (hash-seed dependent) order
+        sorted_name_alias.sort(key=lambda t: (_natural_key(t[0]), t[1] or ""))
         all_ia = [
             cst.ImportAlias(
                 name=cst.Name(name),
